@@ -69,6 +69,24 @@ Definition optimal_chunks (chunks labels : list Z) : list Z :=
     let idx' := if last idx 0 =? total then idx else idx ++ [total] in
     diffs idx'.
 
+(* missing labels (code -1) belong to no group and may live in any block: they are attached to the
+   preceding group (leading ones to the first group) before the boundaries are chosen *)
+Fixpoint ffill_from (prev : Z) (l : list Z) : list Z :=
+  match l with
+  | [] => []
+  | x :: r => if x <? 0 then prev :: ffill_from prev r else x :: ffill_from x r
+  end.
+Definition fill_missing (labels : list Z) : list Z :=
+  match filter (fun x => 0 <=? x) labels with
+  | [] => labels
+  | v :: _ => ffill_from v labels
+  end.
+Definition optimal_chunks_missing (chunks labels : list Z) : list Z :=
+  match filter (fun x => 0 <=? x) labels with
+  | [] => chunks                                   (* every label missing: nothing to align *)
+  | _ => optimal_chunks chunks (fill_missing labels)
+  end.
+
 (* ------------------------------------------------------------------ *)
 (* rechunk_for_cohorts: the division loop *)
 
